@@ -51,20 +51,24 @@ import (
 // that RunJobs submits in order and stops at the first refusal (see Spec/C14.lean).
 
 type c14Input struct {
-	Workers   int     `json:"workers"`
-	Jobs      []int   `json:"jobs"`                // jobs per RunJobs caller (len = number of callers)
-	K         int     `json:"k"`                   // scheduler yields of the stopper before it acts
-	Mode      string  `json:"mode"`                // none | stop | cancel | both | stop-before | cancel-before | stop-after | cancel-after
-	JobKind   string  `json:"jobKind"`             // plain | yield | block | mixed | hold (non-panicking jobs)
-	PanicAt   [][]int `json:"panicAt"`             // per caller: indices of the jobs whose job function panics
-	Stagger   []int   `json:"stagger"`             // yields of caller i before it calls RunJobs
-	Salt      uint64  `json:"salt"`                // per-job choices for mixed/yield kinds
-	StartAtMs []int   `json:"startAtMs,omitempty"` // timed history: caller i calls RunJobs at this virtual time (submission waves with quiet periods in between)
-	LongMs    int     `json:"longMs,omitempty"`    // timed history: base duration (virtual ms) of a long job (jobKind long / long-mixed)
-	StopAtMs  int     `json:"stopAtMs,omitempty"`  // timed history: Stop / cancel is injected at this virtual time (instead of after k yields)
-	Via       string  `json:"via,omitempty"`       // "" = util.NewWorkerGroup directly | runner-v3 | runner-v2: the group as the runner's constructor builds it (Jobs = batches per CheckUpkeeps caller)
-	Queue     int     `json:"queue,omitempty"`     // runner: WorkerQueueLength (!= Workers)
-	Trace     bool    `json:"trace,omitempty"`     // record the verif hook events of the run (needs the hooks in /repo: c14_trace_test.go)
+	Workers    int     `json:"workers"`
+	Jobs       []int   `json:"jobs"`                 // jobs per RunJobs caller (len = number of callers)
+	K          int     `json:"k"`                    // scheduler yields of the stopper before it acts
+	Mode       string  `json:"mode"`                 // none | stop | cancel | both | stop-before | cancel-before | stop-after | cancel-after
+	JobKind    string  `json:"jobKind"`              // plain | yield | block | mixed | hold (non-panicking jobs)
+	PanicAt    [][]int `json:"panicAt"`              // per caller: indices of the jobs whose job function panics
+	Stagger    []int   `json:"stagger"`              // yields of caller i before it calls RunJobs
+	Salt       uint64  `json:"salt"`                 // per-job choices for mixed/yield kinds
+	DeadlineMs []int   `json:"deadlineMs,omitempty"` // caller i's ctx carries a DEADLINE this many virtual ms after the start (0: plain cancellable ctx)
+	StopJobs   [][]int `json:"stopJobs,omitempty"`   // per caller: job indices that call Stop() on the group themselves …
+	StopWhere  string  `json:"stopWhere,omitempty"`  // … from inside the job function ("job", default) or from the result callback ("res")
+	Mercury    []bool  `json:"mercury,omitempty"`    // runner-v2: the mercuryEnabled flag caller i passes to CheckUpkeep
+	StartAtMs  []int   `json:"startAtMs,omitempty"`  // timed history: caller i calls RunJobs at this virtual time (submission waves with quiet periods in between)
+	LongMs     int     `json:"longMs,omitempty"`     // timed history: base duration (virtual ms) of a long job (jobKind long / long-mixed)
+	StopAtMs   int     `json:"stopAtMs,omitempty"`   // timed history: Stop / cancel is injected at this virtual time (instead of after k yields)
+	Via        string  `json:"via,omitempty"`        // "" = util.NewWorkerGroup directly | runner-v3 | runner-v2: the group as the runner's constructor builds it (Jobs = batches per CheckUpkeeps caller)
+	Queue      int     `json:"queue,omitempty"`      // runner: WorkerQueueLength (!= Workers)
+	Trace      bool    `json:"trace,omitempty"`      // record the verif hook events of the run (needs the hooks in /repo: c14_trace_test.go)
 }
 
 type c14Caller struct {
@@ -171,7 +175,7 @@ func c14LongMs(in c14Input, caller, job int) int {
 	h := in.Salt*31 + uint64(caller)*0x9E3779B97F4A7C15 + uint64(job)*0xBF58476D1CE4E5B9
 	h ^= h >> 31
 	switch in.JobKind {
-	case "long":
+	case "long", "long-stubborn":
 		return in.LongMs + int(h%1500)
 	case "long-mixed":
 		if h%3 != 0 {
@@ -181,7 +185,9 @@ func c14LongMs(in c14Input, caller, job int) int {
 	return 0
 }
 
-func (in c14Input) timed() bool { return len(in.StartAtMs) > 0 || in.LongMs > 0 || in.StopAtMs > 0 }
+func (in c14Input) timed() bool {
+	return len(in.StartAtMs) > 0 || in.LongMs > 0 || in.StopAtMs > 0 || in.hasDeadline()
+}
 
 func c14Panics(in c14Input, caller, job int) bool {
 	if caller >= len(in.PanicAt) {
@@ -199,6 +205,35 @@ const c14PanicTag = "c14job:"
 
 // virtual time after which a timed history must be over (waves start within 10 s, jobs take < 8 s)
 const c14TimeLimit = 10 * time.Minute
+
+// hasDeadline / hasStopJobs: the run ends contexts by itself
+func (in c14Input) hasDeadline() bool {
+	for _, d := range in.DeadlineMs {
+		if d > 0 {
+			return true
+		}
+	}
+	return false
+}
+func (in c14Input) hasStopJobs() bool {
+	for _, l := range in.StopJobs {
+		if len(l) > 0 {
+			return true
+		}
+	}
+	return false
+}
+func (in c14Input) stopsAt(caller, job int) bool {
+	if caller >= len(in.StopJobs) {
+		return false
+	}
+	for _, j := range in.StopJobs[caller] {
+		if j == job {
+			return true
+		}
+	}
+	return false
+}
 
 func c14WillRelease(mode string) bool {
 	switch mode {
@@ -310,7 +345,13 @@ func c14Run(t *testing.T, in c14Input, verdict func(c14Impl)) (impl c14Impl) {
 		ctxs := make([]context.Context, n)
 		cancels := make([]context.CancelFunc, n)
 		for i := range ctxs {
-			ctxs[i], cancels[i] = context.WithCancel(context.WithValue(context.Background(), c14CallerKey{}, i))
+			base := context.WithValue(context.Background(), c14CallerKey{}, i)
+			if i < len(in.DeadlineMs) && in.DeadlineMs[i] > 0 {
+				// a DEADLINE, not a cancellation: the context ends by itself at that virtual time
+				ctxs[i], cancels[i] = context.WithTimeout(base, time.Duration(in.DeadlineMs[i])*time.Millisecond+211*time.Microsecond)
+			} else {
+				ctxs[i], cancels[i] = context.WithCancel(base)
+			}
 		}
 		cancelAll := func() {
 			for i, c := range cancels {
@@ -319,16 +360,41 @@ func c14Run(t *testing.T, in c14Input, verdict func(c14Impl)) (impl c14Impl) {
 				tenv("env.cancel", i)
 			}
 		}
+		// Every Stop() of the run goes through stop(): WorkerGroup.Stop serialises its callers on a
+		// sync.Once, and a goroutine blocked on that mutex is not "durably blocked" for synctest —
+		// synctest.Wait would never return and the deadlock verdict would be lost.  The callers that
+		// come second wait on a channel instead (the same blocking, visible to synctest).
+		var stopStarted atomic.Bool
+		stopDone := make(chan struct{})
+		stop := func() {
+			if !stopStarted.CompareAndSwap(false, true) {
+				<-stopDone
+				return
+			}
+			grp.Stop()
+			close(stopDone)
+		}
+		stopWedged := func() bool {
+			if !stopStarted.Load() {
+				return false
+			}
+			select {
+			case <-stopDone:
+				return false
+			default:
+				return true
+			}
+		}
 		inject := func(mode string) {
 			switch mode {
 			case "stop", "stop-before", "stop-after":
-				grp.Stop()
+				stop()
 			case "cancel", "cancel-before", "cancel-after":
 				cancelAll()
 			case "both":
 				// two goroutines so that Stop and the cancellations race as well
 				go cancelAll()
-				grp.Stop()
+				stop()
 			}
 		}
 		if strings.HasSuffix(in.Mode, "-before") {
@@ -377,13 +443,22 @@ func c14Run(t *testing.T, in c14Input, verdict func(c14Impl)) (impl c14Impl) {
 							c.mu.Unlock()
 							panic(fmt.Sprintf("%s%d", c14PanicTag, j-1))
 						}
+						if in.StopWhere != "res" && in.stopsAt(i, j-1) {
+							// a job that shuts the service down itself (fatal condition): Stop from inside a job function
+							stop()
+						}
 						if d := c14LongMs(in, i, j-1); d > 0 {
-							tm := time.NewTimer(time.Duration(d) * time.Millisecond)
-							select {
-							case <-tm.C:
-							case <-ctx.Done():
-								tm.Stop()
-								return j, ctx.Err()
+							if in.JobKind == "long-stubborn" {
+								// finishes the call in flight before it looks at its context
+								time.Sleep(time.Duration(d) * time.Millisecond)
+							} else {
+								tm := time.NewTimer(time.Duration(d) * time.Millisecond)
+								select {
+								case <-tm.C:
+								case <-ctx.Done():
+									tm.Stop()
+									return j, ctx.Err()
+								}
 							}
 						}
 						if block {
@@ -427,6 +502,9 @@ func c14Run(t *testing.T, in c14Input, verdict func(c14Impl)) (impl c14Impl) {
 							c.late++
 						}
 						c.mu.Unlock()
+						if in.StopWhere == "res" && v > 0 && in.stopsAt(i, v-1) {
+							stop() // Stop from inside the result callback
+						}
 					})
 				c.mu.Lock()
 				c.atReturn = len(c.delivered) + c.anon
@@ -487,7 +565,10 @@ func c14Run(t *testing.T, in c14Input, verdict func(c14Impl)) (impl c14Impl) {
 		}
 		// release everything that can be released
 		cancelAll()
-		grp.Stop()
+		synctest.Wait()
+		if !stopWedged() {
+			stop() // (a Stop that never returned must not be waited for: the verdict is already recorded)
+		}
 		synctest.Wait()
 		v := impl
 		impl = snapshot("final")
@@ -536,6 +617,16 @@ func c14Edge() []c14Input {
 		{Workers: 3, Jobs: []int{2, 5, 4}, StartAtMs: []int{0, 1500, 4200}, LongMs: 3000, Mode: "none", JobKind: "long", Salt: 3},
 		{Workers: 1, Jobs: []int{1, 2}, StartAtMs: []int{0, 3100}, LongMs: 6000, Mode: "stop", StopAtMs: 4000, JobKind: "long"},
 		{Workers: 4, Jobs: []int{4, 6}, StartAtMs: []int{0, 1100}, LongMs: 2000, Mode: "cancel", StopAtMs: 1500, JobKind: "long-mixed", Salt: 8},
+		// a DEADLINE on the caller's ctx that expires while accepted jobs are in flight
+		{Workers: 2, Jobs: []int{6}, DeadlineMs: []int{100}, LongMs: 300, Mode: "none", JobKind: "long-stubborn"},
+		{Workers: 1, Jobs: []int{2, 3}, StartAtMs: []int{0, 100}, DeadlineMs: []int{0, 600}, LongMs: 2000, Mode: "none", JobKind: "long"},
+		// Stop() from inside a job function while every worker is held by such a job and more is queued
+		{Workers: 1, Jobs: []int{2}, StopJobs: [][]int{{0}}, Mode: "none", JobKind: "plain"},
+		{Workers: 1, Jobs: []int{25}, StopJobs: [][]int{{0}}, Mode: "none", JobKind: "plain"},
+		{Workers: 2, Jobs: []int{25}, StopJobs: [][]int{{0, 1}}, Mode: "none", JobKind: "plain"},
+		{Workers: 2, Jobs: []int{10}, StopJobs: [][]int{{3}}, StopWhere: "res", Mode: "none", JobKind: "yield", Salt: 1},
+		// v2 runner: concurrent callers with different request flags
+		{Via: "runner-v2", Workers: 3, Queue: 100, Jobs: []int{8, 8}, Mercury: []bool{true, false}, Mode: "none", JobKind: "hold"},
 		// through the runners' constructors: Workers != WorkerQueueLength, more batches than workers
 		{Via: "runner-v3", Workers: 3, Queue: 1000, Jobs: []int{36}, Mode: "none", JobKind: "hold"},
 		{Via: "runner-v3", Workers: 2, Queue: 100, Jobs: []int{5, 5, 5}, Mode: "none", JobKind: "hold", Salt: 4},
@@ -699,6 +790,68 @@ func c14GenTimed(r *Rng) c14Input {
 		in.Mode = "stop-after"
 	}
 	in.Salt = r.U64() % 1_000_000
+	// DEADLINES (not cancellations) on caller contexts, expiring while accepted jobs are in flight or
+	// queued behind another caller's long jobs; some job functions finish their call before they look
+	// at the context
+	if in.Mode == "none" && r.Chance(45) {
+		for c := range in.Jobs {
+			d := 0
+			if c > 0 || r.Chance(50) {
+				d = in.StartAtMs[c] + r.Range(1, 4000)
+			}
+			in.DeadlineMs = append(in.DeadlineMs, d)
+		}
+		if r.Chance(50) {
+			in.JobKind = "long-stubborn"
+			if in.LongMs > 3000 {
+				in.LongMs = r.Range(300, 3000)
+			}
+		}
+	}
+	return in
+}
+
+// c14GenJobStop: Stop() is called from INSIDE the run — by a job function (a job that shuts the service
+// down) or by the result callback — while other accepted items are queued; sometimes as many stopping
+// jobs as there are workers
+func c14GenJobStop(r *Rng) c14Input {
+	var in c14Input
+	in.Workers = []int{1, 1, 2, 2, 3, 4, 8}[r.Intn(7)]
+	callers := []int{1, 1, 2, 3}[r.Intn(4)]
+	for c := 0; c < callers; c++ {
+		in.Jobs = append(in.Jobs, r.Range(1, 4*in.Workers+4))
+		in.Stagger = append(in.Stagger, r.Intn(3)*r.Intn(6))
+		var at []int
+		switch r.Intn(4) {
+		case 0: // the first `workers` jobs all stop: every worker is held by a caller of Stop
+			for j := 0; j < in.Workers && j < in.Jobs[c]; j++ {
+				at = append(at, j)
+			}
+		case 1:
+			at = []int{r.Intn(in.Jobs[c])}
+		case 2:
+			for j := 0; j < in.Jobs[c]; j++ {
+				if r.Chance(30) {
+					at = append(at, j)
+				}
+			}
+		default:
+			if c == 0 {
+				at = []int{0}
+			}
+		}
+		in.StopJobs = append(in.StopJobs, at)
+	}
+	if !in.hasStopJobs() {
+		in.StopJobs[0] = []int{0}
+	}
+	in.StopWhere = "job"
+	if r.Chance(25) {
+		in.StopWhere = "res"
+	}
+	in.Mode = "none" // nothing is injected from outside: the run stops itself
+	in.JobKind = []string{"plain", "plain", "yield", "hold", "hold"}[r.Intn(5)]
+	in.Salt = r.U64() % 1_000_000
 	return in
 }
 
@@ -754,9 +907,18 @@ func c14GenRunner(r *Rng) c14Input {
 	default:
 		in.Mode = "cancel-after"
 	}
+	if in.Via == "runner-v2" {
+		// the request flag of CheckUpkeep: callers of one runner use different values
+		for range in.Jobs {
+			in.Mercury = append(in.Mercury, r.Chance(50))
+		}
+	}
 	if in.Mode == "stop" || in.Mode == "both" {
 		// error results of calls the workers skipped carry no identity: one caller, so that they can be counted for it
 		in.Jobs, in.Stagger = in.Jobs[:1], in.Stagger[:1]
+		if len(in.Mercury) > 1 {
+			in.Mercury = in.Mercury[:1]
+		}
 	}
 	if c14WillRelease(in.Mode) {
 		in.K = r.Range(0, 300)
@@ -852,6 +1014,11 @@ func c14Cases(t *testing.T) (cases []c14Case, dist map[string]int) {
 	for i, nt := 0, tierN(150, 2500); i < nt; i++ {
 		cases = append(cases, c14Case{"gen-timed", c14GenTimed(r4)})
 	}
+	// Stop called from inside a job function / the result callback
+	r5 := NewRng(seed() + 0x5709)
+	for i, ns := 0, tierN(150, 2500); i < ns; i++ {
+		cases = append(cases, c14Case{"gen-jobstop", c14GenJobStop(r5)})
+	}
 	// the worker group as the runners' public constructors build it (own random stream)
 	r3 := NewRng(seed() + 0x4a11)
 	for i, nr := 0, tierN(200, 3000); i < nr; i++ {
@@ -867,7 +1034,18 @@ func c14Cases(t *testing.T) (cases []c14Case, dist map[string]int) {
 				// a timed history (quiet periods while long jobs hold workers), traced
 				in := c14GenTimed(r2)
 				in.Trace = true
+				if in.hasDeadline() {
+					// the expiry of a deadline is not an action of the harness: no event marks it in the log
+					in.DeadlineMs = nil
+				}
 				cases = append(cases, c14Case{"gen-trace-timed", in})
+				continue
+			}
+			if i%6 == 4 {
+				// Stop from inside a job function / the result callback, traced
+				in := c14GenJobStop(r2)
+				in.Trace = true
+				cases = append(cases, c14Case{"gen-trace-jobstop", in})
 				continue
 			}
 			cases = append(cases, c14Case{"gen-trace", c14GenTrace(r2, i)})
@@ -884,6 +1062,15 @@ func c14Cases(t *testing.T) (cases []c14Case, dist map[string]int) {
 		}
 		if in.timed() {
 			dist["timed=yes"]++
+		}
+		if in.hasDeadline() {
+			dist["deadline=yes"]++
+		}
+		if in.hasStopJobs() {
+			dist["stop-from-inside="+map[bool]string{true: "res", false: "job"}[in.StopWhere == "res"]]++
+		}
+		if len(in.Mercury) > 1 {
+			dist["v2-request-flags"]++
 		}
 		if in.Via != "" {
 			dist["via="+in.Via]++
